@@ -443,7 +443,10 @@ impl Sim {
                     self.panicked = Some("panic in call".into());
                 }
                 // the request record was pushed by prepare_job; it is the last one without a future
-                let idx = self.reqs.iter().rposition(|r| r.fut.is_none() && r.outcome == Outcome::Pending && !r.polled).expect("issued request record");
+                // (jobs are finished in group order, the records were pushed in group order: the first record that is
+                // still without its future belongs to this job — with two different requests in one group the last
+                // one would be the other request's record)
+                let idx = self.reqs.iter().position(|r| r.fut.is_none() && r.outcome == Outcome::Pending && !r.polled).expect("issued request record");
                 self.reqs[idx].fut = f;
             }
             (Ev::Poll(r), JobOut::Polled(fut, res)) => {
